@@ -41,31 +41,65 @@ func init() {
 			}
 			return true
 		})
+		// Execute together with the hybridSearch methods it calls on its own receiver (helpers a
+		// maintainer may extract steps into), transitively: the facts are about what a search
+		// does, not about which function body the text sits in
+		exAll := []*ast.FuncDecl{ex}
+		seen := map[string]bool{"Execute": true}
+		for i := 0; i < len(exAll); i++ {
+			fn := exAll[i]
+			recv := ""
+			if fn.Recv != nil && len(fn.Recv.List) == 1 && len(fn.Recv.List[0].Names) == 1 {
+				recv = fn.Recv.List[0].Names[0].Name
+			}
+			ast.Inspect(fn, func(n ast.Node) bool {
+				if c, ok := n.(*ast.CallExpr); ok {
+					if sel, ok := c.Fun.(*ast.SelectorExpr); ok {
+						if id, ok := sel.X.(*ast.Ident); ok && id.Name == recv && !seen[sel.Sel.Name] {
+							if h := p.Func("hybridSearch", sel.Sel.Name); h != nil {
+								seen[sel.Sel.Name] = true
+								exAll = append(exAll, h)
+							}
+						}
+					}
+				}
+				return true
+			})
+		}
+		ifConds := func(sub string) []string {
+			var out []string
+			for _, fn := range exAll {
+				out = append(out, p.IfConds(fn, sub)...)
+			}
+			return out
+		}
 		b := ""
 		b += "/-- validation / sub-add / docInfo assignment order in addInternal -/\n"
 		b += "def addOrder : List String := " + LeanStrList(order) + "\n\n"
 		b += "/-- sub-remove / docInfo delete order in Remove -/\n"
 		b += "def removeOrder : List String := " + LeanStrList(rmOrder) + "\n\n"
 		b += "/-- the guard of the metadata-only fallback in Execute -/\n"
-		b += "def fallbackConds : List String := " + LeanStrList(p.IfConds(ex, "len(candidateIDs) > 0 &&")) + "\n\n"
-		b += "def fallbackConds2 : List String := " + LeanStrList(p.IfConds(ex, "&& len(candidateIDs) > 0")) + "\n\n"
+		b += "def fallbackConds : List String := " + LeanStrList(ifConds("len(candidateIDs) > 0 &&")) + "\n\n"
+		b += "def fallbackConds2 : List String := " + LeanStrList(ifConds("&& len(candidateIDs) > 0")) + "\n\n"
 		b += "/-- the fusion-selection and truncation conditions of Execute -/\n"
-		b += "def combineConds : List String := " + LeanStrList(p.IfConds(ex, "len(vectorResults) > 0")) + "\n\n"
-		b += "def truncateConds : List String := " + LeanStrList(p.IfConds(ex, "s.k")) + "\n\n"
+		b += "def combineConds : List String := " + LeanStrList(ifConds("len(vectorResults) > 0")) + "\n\n"
+		b += "def truncateConds : List String := " + LeanStrList(ifConds("s.k")) + "\n\n"
 		b += "/-- options Execute passes to the sub-searches -/\n"
 		var opts []string
-		ast.Inspect(ex, func(n ast.Node) bool {
-			if c, ok := n.(*ast.CallExpr); ok {
-				if sel, ok := c.Fun.(*ast.SelectorExpr); ok && strings.HasPrefix(sel.Sel.Name, "With") {
-					args := make([]string, len(c.Args))
-					for i, a := range c.Args {
-						args[i] = p.Src(a)
+		for _, fn := range exAll {
+			ast.Inspect(fn, func(n ast.Node) bool {
+				if c, ok := n.(*ast.CallExpr); ok {
+					if sel, ok := c.Fun.(*ast.SelectorExpr); ok && strings.HasPrefix(sel.Sel.Name, "With") {
+						args := make([]string, len(c.Args))
+						for i, a := range c.Args {
+							args[i] = p.Src(a)
+						}
+						opts = append(opts, sel.Sel.Name+"("+strings.Join(args, ", ")+")")
 					}
-					opts = append(opts, sel.Sel.Name+"("+strings.Join(args, ", ")+")")
 				}
-			}
-			return true
-		})
+				return true
+			})
+		}
 		// inner calls are visited after outer ones in a call chain; sort for a stable set
 		sortStrings(opts)
 		b += "def subSearchOptions : List String := " + LeanStrList(opts) + "\n"
